@@ -7,7 +7,14 @@ COMMON_TRUSTED = [
     "the Rust harness (generators, value printers, LSP client) and the python driver ./check",
 ]
 
+LIB_STAGES = {
+    "1": "arena after import (every slot: kind, prev, next, child, line)", "2": "title cache (get_key_title)",
+    "3": "collected tree per note (Graph::collect, with ids)", "4": "formatted text per note (Graph::to_markdown)",
+    "5": "line -> node map (get_node_id_at for every line)", "6": "second formatting: update_key(formatted text) then to_markdown",
+}
+
 PROPS = {
+    "LIB": dict(level="proof", claim="development stage", note="", stages=LIB_STAGES, props={}, rule="dev"),
     "C15": dict(
         level="proof",
         claim="Theorem C15_roundtrip (Rocq, closed under the global context): for every key and every linking directory given as segment lists of any length and in any relation, from_rel_link_url (to_rel_link_url K D) D = K, about a model of liwe::model::Key and of the relative-path crate functions it calls; every run compares 14 model functions with the real Key API / crate on an exhaustive small scope plus random deep and hostile paths and evaluates the round-trip predicates on the implementation's own results. A theorem is the right level because the claim is an algebraic law over all path pairs.",
